@@ -1,4 +1,4 @@
-import Juniper.Proofs.TreeSlotsNode
+import Juniper.Proofs.TreeSlotsOpsNode
 /-!
 # Slot-level lemmas (C03 "no retained garbage"): the split in `overfill`
 
@@ -6,8 +6,8 @@ The amalgam view, the ascending fill of the fresh right node, the in-place desce
 node and the three `xslices.Clear` calls, array by array (`split_array`) and for the whole node
 (`splitNode_leaf_rep`, `splitNode_inner_rep`).
 -/
-namespace Juniper.Proofs.TreeSlots
-open Juniper.Model.BTreeSlots Juniper.Gen
+namespace Juniper.Proofs.TreeSlotsOps
+open Juniper.Model.BTreeSlotsOps Juniper.Gen
 
 section
 variable {α : Type}
@@ -267,4 +267,4 @@ theorem splitNode_inner_rep {x : SNode K V C} {kvs : List (K × V)} {kids : List
 
 end
 
-end Juniper.Proofs.TreeSlots
+end Juniper.Proofs.TreeSlotsOps
